@@ -19,7 +19,7 @@ RULE = (
     "- after construction and immediately after every operation; all ordered pairs of the registry at fixed parameters are "
     "enumerated for presence + purge + recalculate; non-trivial = the pair has a name relationship or the program has >=2 operations"
 )
-FLOORS = {"name_relationship": (0.15, None)}
+FLOORS = {"name_relationship": (0.1, None)}
 
 TEMPLATES = (
     ({"cls": "TR", "kw": {}}, {"cls": "ATR", "kw": {"period": 3}}),
@@ -40,6 +40,11 @@ TEMPLATES = (
     ({"cls": "EMA", "kw": {"period": 3}}, {"cls": "MACD", "kw": {"fast_period": 2, "slow_period": 3, "signal_period": 2}}),
     ({"cls": "WMA", "kw": {"period": 4}}, {"cls": "HMA", "kw": {"period": 4}}),
     ({"analysis": "rising", "kw": {"indicator": "close", "length": 1}}, {"analysis": "rising", "kw": {"indicator": "close", "length": 12}}),
+    ({"cls": "EMA", "kw": {"period": 5}}, {"cls": "EMA", "kw": {"period": 5, "input_value": "high", "name_suffix": "high"}}),
+    ({"cls": "TR", "kw": {}}, {"cls": "TR", "kw": {"name_suffix": "b"}}),
+    ({"cls": "RSI", "kw": {"period": 3}}, {"cls": "RSI", "kw": {"period": 3, "input_value": "open", "name_suffix": "open"}}),
+    ({"cls": "MACD", "kw": {"fast_period": 2, "slow_period": 3, "signal_period": 2}}, {"cls": "MACD", "kw": {"fast_period": 2, "slow_period": 3, "signal_period": 2, "input_value": "low", "name_suffix": "EMA"}}),
+    ({"cls": "ATR", "kw": {"period": 3}}, {"cls": "SMA", "kw": {"period": 3, "fullname_override": "ATR_3_x"}}),
 )
 OPS = ("purge", "recalculate", "remove", "calculate", "append", "purge", "recalculate")
 
@@ -64,8 +69,23 @@ def cases(draw, max_n=45):
     n = draw(st.integers(4, max_n))
     tf = draw(st.sampled_from((None, None, None, "T5")))
     rows = draw(gs.price_rows(n))
-    step = 60 if not tf else draw(st.sampled_from((60, 150, 300)))
-    stream = [[gs.BASE_DAY + i * step] + r for i, r in enumerate(rows)]
+    # members may sit on their own (shared or different) timeframe, ask for gap filling themselves,
+    # and be registered later through add_indicator
+    own = draw(st.sampled_from((None, None, "T5", "T10") if not tf else (None, None, "T10")))
+    for m in members:
+        if own and draw(st.integers(0, 2)) > 0:
+            m["kw"]["timeframe"] = own if draw(st.integers(0, 3)) else draw(st.sampled_from(("T10", "T15")))
+            if draw(st.integers(0, 2)) == 0:
+                m["kw"]["timeframe_fill"] = True
+    step = draw(st.sampled_from((60, 150, 300))) if (tf or own) else 60
+    gappy = bool(own) and draw(st.booleans())
+    t, stream = gs.BASE_DAY, []
+    for r in rows:
+        stream.append([t] + r)
+        t += step if not gappy else draw(st.sampled_from((step, step, step, step, 700, 1500)))
+    late = [i for i in range(len(members)) if draw(st.integers(0, 3)) == 0]
+    if len(late) == len(members):
+        late = late[1:]
     pre = draw(st.integers(1, n))
     ops = []
     pos = pre
@@ -79,14 +99,19 @@ def cases(draw, max_n=45):
             pos += k
         else:
             ops.append({"op": op})
-    return {"members": members, "target": draw(st.integers(0, len(members) - 1)), "tf": tf, "preload": stream[:pre], "ops": ops}
+    return {"members": members, "late": late, "target": draw(st.integers(0, len(members) - 1)), "tf": tf, "preload": stream[:pre], "ops": ops}
 
 
-def _mk_hex(cfgs, rows, tf):
+def _mk_hex(cfgs, rows, tf, late=()):
     from hexital import Hexital
 
     inds = [build_indicator(c) for c in cfgs]
-    hx = Hexital("c13", mk_candles(rows), inds, **({"timeframe": tf} if tf else {}))
+    first = [ind for i, ind in enumerate(inds) if i not in late]
+    hx = Hexital("c13", mk_candles(rows), first, **({"timeframe": tf} if tf else {}))
+    hx.calculate()
+    for i, ind in enumerate(inds):
+        if i in late:
+            hx.add_indicator(ind)
     hx.calculate()
     return hx, [i.name for i in inds]
 
@@ -95,7 +120,7 @@ def _solo(cfg, rows, tf):
     hx, names = _mk_hex([cfg], rows, tf)
     ind = hx.indicator(names[0])
     keys = set()
-    for c in hx.candles():
+    for c in ind.candles:
         keys |= set(c.indicators) | set(c.sub_indicators)
     return ind.as_list(), keys
 
@@ -150,7 +175,7 @@ def run_case(case) -> Result:
                 )
 
     try:
-        hx, _ = _mk_hex(cfgs, rows, tf)
+        hx, _ = _mk_hex(cfgs, rows, tf, set(case.get("late", ())))
     except Exception as exc:
         v = raises(exc, "interference")
         v.detail = f"construct {names}: " + v.detail
@@ -180,6 +205,10 @@ def run_case(case) -> Result:
             viol.append(v)
             break
         check(hx, alive, f"{op['op']} (op {k})")
+    if case.get("late"):
+        labels.append("late_registration")
+    if any("timeframe" in c["kw"] for c in cfgs):
+        labels.append("member_timeframes")
     return Result(viol, rel != "unrelated" or len(case["ops"]) >= 2, labels)
 
 
